@@ -131,3 +131,381 @@ def c04(**p):
         c.oblige("node-maps-equal", all_(conds))
         c.oblige("edge-sets-equal", edge_set(g1) == edge_set(g2))
     return body
+
+
+# ---------------------------------------------------------------------------
+# shared: reference decoding and isomorphism conditions
+
+def ref_decode(s):
+    from ref.tucan_ref import decode
+    from symx.strings import term_of_char, ge, has_ph
+    if has_ph(s):
+        return decode(s, term_of_char, ge)
+    return decode(s)
+
+
+def label_default(c, v):
+    """The colour a missing label stands for (the invariant code's default 0)."""
+    return 0 if v is None else v
+
+
+def iso_condition(n, el1, bonds1, mass1, rad1, el2, bonds2, mass2, rad2):
+    """Condition: graph 1 is isomorphic to graph 2 with element, mass and radical
+    preserved.  Skeleton isomorphisms (element + edges, concrete) are enumerated by
+    REF-ISO; label equality along each is left to the solver.  A missing label and an
+    explicit 0 are the same colour (as in the invariant code)."""
+    from ref.iso import isomorphisms
+    if len(el1) != n or len(el2) != n:
+        return False, 0
+    phis = isomorphisms(n, el1, bonds1, el2, bonds2)
+    alts = []
+    for phi in phis:
+        alts.append(all_([all_([eq(_z(mass1[a]), _z(mass2[phi[a]])), eq(_z(rad1[a]), _z(rad2[phi[a]]))]) for a in range(n)]))
+    return (any_(alts) if alts else False), len(phis)
+
+
+def _z(v):
+    return 0 if v is None else v
+
+
+# ---------------------------------------------------------------------------
+# C02 — different molecules never share a string
+
+def c02(**p):
+    def body(c):
+        mol = dom(c, p)
+        s = ser(canon(graph_of(mol.listing())))
+        c.note("mol", mol.describe())
+        c.note("tucan", s)
+        n = mol.n
+        try:
+            el, bonds, attrs, conds = ref_decode(s)
+        except Exception as e:
+            c.oblige("reference-decoder-accepts", False, repr(e))
+            return
+        mass2 = [attrs.get(i, {}).get("mass") for i in range(len(el))]
+        rad2 = [attrs.get(i, {}).get("rad") for i in range(len(el))]
+        cond, nphi = iso_condition(n, el, bonds, mass2, rad2, mol.elements, list(mol.bonds), mol.mass, mol.rad)
+        c.note("skeleton_isomorphisms", nphi)
+        c.oblige("decoded-graph-isomorphic-to-molecule", cond)
+        c.oblige("numerals-positive", all_(conds) if conds else True)
+    return body
+
+
+def c02pair(**p):
+    """Near-miss pairs inside one path: M and M'' differ by one bond toggle or by one
+    label moved to another atom.  Obligation: strings equal => isomorphic."""
+    def body(c):
+        mol = dom(c, p)
+        n = mol.n
+        ps = pairs(n)
+        kind = c.choice("nm_kind", 2) if n > 1 else 1
+        bonds2 = dict(mol.bonds)
+        mass2, rad2 = list(mol.mass), list(mol.rad)
+        if kind == 0:
+            k = c.choice("nm_pair", len(ps))
+            if ps[k] in bonds2:
+                del bonds2[ps[k]]
+            else:
+                bonds2[ps[k]] = {}
+            c.note("near_miss", ["toggle", list(ps[k])])
+        else:
+            a = c.choice("nm_from", n)
+            b = c.choice("nm_to", n)
+            c.assume(a != b)
+            which = c.choice("nm_which", 2)
+            lab = mass2 if which == 0 else rad2
+            if lab[a] is None or lab[b] is not None:
+                from symx.core import Infeasible
+                c.assume(False)
+            lab[b], lab[a] = lab[a], None
+            c.note("near_miss", ["move", "mass" if which == 0 else "rad", a, b])
+        mol2 = Mol(mol.elements, mass2, rad2, bonds2)
+        s1 = ser(canon(graph_of(mol.listing())))
+        s2 = ser(canon(graph_of(mol2.listing())))
+        c.note("mol", mol.describe())
+        c.note("tucan", s1)
+        c.note("tucan_near_miss", s2)
+        iso, nphi = iso_condition(n, mol.elements, list(mol.bonds), mol.mass, mol.rad,
+                                  mol2.elements, list(mol2.bonds), mol2.mass, mol2.rad)
+        from symx.core import implies
+        c.oblige("equal-strings-imply-isomorphic", implies(str_eq(s1, s2), iso))
+    return body
+
+
+# ---------------------------------------------------------------------------
+# C05 — grammar and canonical layout of every emitted string
+
+def c05(**p):
+    def body(c):
+        from ref.tucan_ref import layout_problems
+        from symx.strings import term_of_char, ge, has_ph
+        mol = dom(c, p)
+        s = ser(canon(graph_of(mol.listing())))
+        c.note("mol", mol.describe())
+        c.note("tucan", s)
+        problems, conds = layout_problems(s, mol.elements, term_of_char, ge) if has_ph(s) else layout_problems(s, mol.elements)
+        c.oblige("grammar-and-layout", not problems, problems[:3])
+        c.oblige("values-strictly-positive", all_(conds) if conds else True)
+        # one attribute block per labelled atom, holding exactly that atom's labels
+        try:
+            el, bonds, attrs, _ = ref_decode(s)
+        except Exception as e:
+            c.oblige("reference-decoder-accepts", False, repr(e))
+            return
+        labelled = [a for a in range(mol.n) if mol.mass[a] is not None or mol.rad[a] is not None]
+        c.oblige("one-block-per-labelled-atom", len(attrs) == len(labelled), [sorted(attrs), labelled])
+        c.oblige("bond-count", len(bonds) == len(mol.bonds))
+        mass2 = [attrs.get(i, {}).get("mass") for i in range(len(el))]
+        rad2 = [attrs.get(i, {}).get("rad") for i in range(len(el))]
+        # labels sit on atoms of the right element with the atom's own values, strictly (absent == absent)
+        from ref.iso import isomorphisms
+        phis = isomorphisms(mol.n, el, bonds, mol.elements, list(mol.bonds)) if len(el) == mol.n else []
+        alts = [all_([all_([eq(mass2[a], mol.mass[phi[a]]), eq(rad2[a], mol.rad[phi[a]])]) for a in range(mol.n)]) for phi in phis]
+        c.oblige("blocks-carry-the-atoms-labels", any_(alts) if alts else False)
+    return body
+
+
+# ---------------------------------------------------------------------------
+# C12 — canonicalization only renames; nothing is lost, added or mutated
+
+SCRATCH = ("explored",)
+BOOKKEEPING = ("partition", "explored")
+
+
+def snapshot(g):
+    return ([(k, dict(d)) for k, d in g.nodes(data=True)], [(u, v, dict(d)) for u, v, d in g.edges(data=True)])
+
+
+def same_snapshot(s1, s2, ignore=()):
+    (n1, e1), (n2, e2) = s1, s2
+    if [k for k, _ in n1] != [k for k, _ in n2]:
+        return False
+    if [(u, v) for u, v, _ in e1] != [(u, v) for u, v, _ in e2]:
+        return False
+    conds = []
+    for (_, d1), (_, d2) in list(zip(n1, n2)) + [(("", a[2]), ("", b[2])) for a, b in zip(e1, e2)]:
+        k1 = [k for k in d1 if k not in ignore]
+        k2 = [k for k in d2 if k not in ignore]
+        if sorted(k1) != sorted(k2):
+            return False
+        for k in k1:
+            conds.append(attr_eq(d1[k], d2[k]))
+    return all_(conds) if conds else True
+
+
+def attr_eq(a, b):
+    if a is b:
+        return True
+    if isinstance(a, tuple) and isinstance(b, tuple):
+        if len(a) != len(b):
+            return False
+        return all_([attr_eq(x, y) for x, y in zip(a, b)])
+    return eq(a, b)
+
+
+def rich_mol(c, p):
+    """Abstract molecule with a unique tag, symbolic charge, concrete coordinates on
+    every atom and a symbolic bond type on every bond."""
+    mol = dom(c, p)
+    for a in range(mol.n):
+        mol.extra[a] = {"tag": 100 + a, "chg": c.int(f"chg{a}", -15, 15),
+                        "x_coord": 1.5 * a, "y_coord": -0.25 * a, "z_coord": 0.0}
+    for (a, b) in list(mol.bonds):
+        mol.bonds[(a, b)] = {"bond_type": c.int(f"bt{a}_{b}")}
+    return mol
+
+
+def c12(**p):
+    def body(c):
+        mol = rich_mol(c, p)
+        n = mol.n
+        g = graph_of(mol.listing())
+        before = snapshot(g)
+        g2 = canon(g)
+        c.note("mol", mol.describe())
+        c.oblige("input-unchanged-by-canonicalize", same_snapshot(before, snapshot(g), ignore=SCRATCH))
+        c.oblige("nodes-are-0..n-1", sorted(g2.nodes) == list(range(n)))
+        tags = {d.get("tag"): k for k, d in g2.nodes(data=True)}
+        c.oblige("renaming-is-a-bijection", sorted(tags) == [100 + a for a in range(n)] and sorted(tags.values()) == list(range(n)))
+        by_tag_in = {d["tag"]: d for _, d in g.nodes(data=True)}
+        conds = []
+        for k, d in g2.nodes(data=True):
+            src = by_tag_in.get(d.get("tag"), {})
+            keys = [x for x in src if x not in BOOKKEEPING]
+            conds.append(sorted(keys) == sorted(x for x in d if x not in BOOKKEEPING))
+            for x in keys:
+                conds.append(attr_eq(src[x], d.get(x)))
+        c.oblige("atom-attributes-carried", all_(conds))
+        tag_of_in = {k: d["tag"] for k, d in g.nodes(data=True)}
+        tag_of_out = {k: d.get("tag") for k, d in g2.nodes(data=True)}
+        bt_in = {frozenset((tag_of_in[u], tag_of_in[v])): d for u, v, d in g.edges(data=True)}
+        bt_out = {frozenset((tag_of_out[u], tag_of_out[v])): d for u, v, d in g2.edges(data=True)}
+        ok = set(bt_in) == set(bt_out) and g2.number_of_edges() == len(mol.bonds)
+        c.oblige("bonds-keep-endpoints", ok)
+        if ok:
+            c.oblige("bond-attributes-carried", all_([all_([sorted(bt_in[k]) == sorted(bt_out[k])] + [attr_eq(bt_in[k][x], bt_out[k][x]) for x in bt_in[k]]) for k in bt_in]) if bt_in else True)
+        # repeated calls on the same objects
+        snap2 = snapshot(g2)
+        s1 = ser(g2)
+        c.note("tucan", s1)
+        c.oblige("canonical-graph-unchanged-by-serialize", same_snapshot(snap2, snapshot(g2), ignore=SCRATCH))
+        s2 = ser(g2)
+        s3 = ser(g2)
+        c.oblige("serialize-repeatable", all_([str_eq(s1, s2), str_eq(s1, s3)]))
+        g3 = canon(g)
+        c.oblige("canonicalize-repeatable", same_snapshot(snapshot(g2), snapshot(g3), ignore=SCRATCH))
+        c.oblige("input-unchanged-by-repeat", same_snapshot(before, snapshot(g), ignore=SCRATCH))
+        s4 = ser(canon(g))
+        c.oblige("pipeline-repeatable", str_eq(s1, s4))
+    return body
+
+
+# ---------------------------------------------------------------------------
+# C13 — partition classes: label-independent, equitable, symmetry-respecting
+
+def tagged(mol):
+    for a in range(mol.n):
+        mol.extra[a] = dict(mol.extra[a], tag=100 + a)
+    return mol
+
+
+def classes_by_tag(g):
+    return {d["tag"] - 100: d.get("partition") for _, d in g.nodes(data=True)}
+
+
+def c13(**p):
+    def body(c):
+        from ref.iso import automorphisms
+        mol = tagged(dom(c, p))
+        n = mol.n
+        order, bo, flip = relist(c, mol, p)
+        g1 = canon(graph_of(mol.listing()))
+        g2 = canon(graph_of(mol.listing(order, bo, flip)))
+        cls1, cls2 = classes_by_tag(g1), classes_by_tag(g2)
+        c.note("mol", mol.describe())
+        c.note("relisting", [order, bo, list(flip)])
+        c.note("classes", [cls1.get(a) for a in range(n)])
+        c.note("classes_relisted", [cls2.get(a) for a in range(n)])
+        c.oblige("classes-label-independent", cls1 == cls2)
+        # equitable: same class => same invariant code and same multiset of neighbour classes
+        nb = {a: [] for a in range(n)}
+        for (a, b) in mol.bonds:
+            nb[a].append(b); nb[b].append(a)
+        conds = []
+        for a in range(n):
+            for b in range(a + 1, n):
+                if cls1[a] == cls1[b]:
+                    conds.append(mol.elements[a] == mol.elements[b])
+                    conds.append(eq(_z(mol.mass[a]), _z(mol.mass[b])))
+                    conds.append(eq(_z(mol.rad[a]), _z(mol.rad[b])))
+                    conds.append(sorted(cls1[x] for x in nb[a]) == sorted(cls1[x] for x in nb[b]))
+        c.oblige("classes-equitable", all_(conds) if conds else True)
+        # symmetry: an automorphism of the skeleton that separates two classes cannot preserve all colours
+        autos = automorphisms(n, mol.elements, list(mol.bonds))
+        c.note("skeleton_automorphisms", len(autos))
+        bad = []
+        for al in autos:
+            if any(cls1[a] != cls1[al[a]] for a in range(n)):
+                bad.append(not_(all_([all_([eq(_z(mol.mass[a]), _z(mol.mass[al[a]])), eq(_z(mol.rad[a]), _z(mol.rad[al[a]]))]) for a in range(n)])))
+        c.oblige("symmetric-atoms-share-a-class", all_(bad) if bad else True)
+    return body
+
+
+# ---------------------------------------------------------------------------
+# C15 (small sizes) — the pipeline returns normally for every molecule of the strata
+
+def c15(**p):
+    def body(c):
+        mol = dom(c, p)
+        c.note("mol", mol.describe())
+        try:
+            g = graph_of(mol.listing())
+            s = ser(canon(g))
+        except Exception as e:
+            c.oblige("canonicalize-and-serialize-return-normally", False, f"{type(e).__name__}: {e}")
+            return
+        c.note("tucan", s)
+        c.oblige("canonicalize-and-serialize-return-normally", True)
+    return body
+
+
+# ---------------------------------------------------------------------------
+# C16 — permute_molecule returns a faithful relabelled copy
+
+class ShuffleStub:
+    """Stands in for the `random` module inside tucan.graph_utils: shuffle applies a
+    permutation chosen by the solver (all n! outcomes are explored), seed records its
+    argument.  Every other attribute access is an error (the helper must use nothing else)."""
+
+    def __init__(self, c, max_shuffles):
+        self.c = c
+        self.calls = []
+        self.shuffles = 0
+        self.max_shuffles = max_shuffles
+
+    def seed(self, a=None, *rest):
+        self.calls.append(("seed", a))
+
+    def shuffle(self, x):
+        self.shuffles += 1
+        if self.shuffles > self.max_shuffles:
+            raise Cut(f"more than {self.max_shuffles} shuffles in the retry loop")
+        self.calls.append(("shuffle", len(x)))
+        items = list(x)
+        out = []
+        k = self.shuffles
+        for i in range(len(items), 1, -1):
+            out.append(items.pop(self.c.choice(f"sh{k}_{i}", i)))
+        out += items
+        x[:] = out
+
+    def __getattr__(self, name):
+        raise AssertionError(f"permute_molecule used random.{name}")
+
+
+def c16(**p):
+    def body(c):
+        import networkx as nx
+        t = T()
+        mol = rich_mol(c, p)
+        n = mol.n
+        g = graph_of(mol.listing())
+        before = snapshot(g)
+        seed = 0.25
+        stub = ShuffleStub(c, p.get("max_shuffles", 3))
+        gu = t["gu"]
+        real_random = gu.random
+        gu.random = stub
+        try:
+            gp = t["permute_molecule"](g, seed)
+        finally:
+            gu.random = real_random
+        c.note("mol", mol.describe())
+        c.note("shuffles", stub.shuffles)
+        c.note("perm", [gp.nodes[k].get("tag") for k in gp.nodes])
+        c.oblige("seeded-before-first-shuffle", len(stub.calls) >= 2 and stub.calls[0] == ("seed", seed) and all(x[0] == "shuffle" for x in stub.calls[1:]))
+        c.oblige("argument-unchanged", same_snapshot(before, snapshot(g)))
+        c.oblige("same-label-set", sorted(gp.nodes) == sorted(g.nodes))
+        c.oblige("atoms-listed-in-label-order", list(gp.nodes) == sorted(gp.nodes))
+        tag_in = {d["tag"]: (k, d) for k, d in g.nodes(data=True)}
+        tag_out = {d.get("tag"): (k, d) for k, d in gp.nodes(data=True)}
+        c.oblige("tag-map-is-a-bijection", sorted(tag_in) == sorted(tag_out))
+        if sorted(tag_in) != sorted(tag_out):
+            return
+        c.oblige("atom-attributes-carried", all_([same_dict(tag_in[x][1], tag_out[x][1]) for x in tag_in]))
+        e_in = {frozenset((g.nodes[u]["tag"], g.nodes[v]["tag"])): d for u, v, d in g.edges(data=True)}
+        e_out = {frozenset((gp.nodes[u]["tag"], gp.nodes[v]["tag"])): d for u, v, d in gp.edges(data=True)}
+        c.oblige("is-an-isomorphism", set(e_in) == set(e_out) and gp.number_of_edges() == g.number_of_edges())
+        if set(e_in) == set(e_out):
+            c.oblige("bond-attributes-carried", all_([same_dict(e_in[k], e_out[k]) for k in e_in]) if e_in else True)
+        m = g.number_of_edges()
+        if m >= 2 and m != n * (n - 1) // 2:
+            c.oblige("edge-set-differs", set(map(frozenset, g.edges)) != set(map(frozenset, gp.edges)))
+    return body
+
+
+def same_dict(d1, d2):
+    if sorted(d1) != sorted(d2):
+        return False
+    return all_([attr_eq(d1[k], d2[k]) for k in d1]) if d1 else True
